@@ -88,6 +88,10 @@ func main() {
 		defer w.Flush()
 		vw := bufio.NewWriter(mustCreate(*violPath))
 		defer vw.Flush()
+		if *work == "" {
+			*work = "scratch"
+		}
+		_ = os.MkdirAll(*work, 0o755)
 		env := &execEnv{work: *work, stats: map[string]int{}, nontr: map[string]bool{},
 			alg: &algStats{ops: map[string]int{}, nontrivial: map[string]bool{}}}
 		sc := bufio.NewScanner(inF)
@@ -112,6 +116,7 @@ func main() {
 				vw.WriteByte('\n')
 			}
 		}
+		_ = os.RemoveAll(*work)
 		stats := map[string]interface{}{"cases": cases}
 		for k, v := range env.stats {
 			stats[k] = v
